@@ -23,3 +23,67 @@ theorem supportedB_d32_raw (W H ox oy : Nat) (rows : List (List Px32)) :
   unfold supportedB; exact Bool.and_false _
 
 end Drx.Bitd
+
+namespace Drx.Bitd
+open Drx Drx.Bitd.Spec
+
+/-! ### a decoder looks at height and top offset only through `fixPad` -/
+
+theorem decode8_fixPad (r : Bool) (c : Call) (h' : Nat) (p' : Int) (hfp : fixPad c.height c.padH = fixPad h' p') :
+    decode8 r c = decode8 r { c with height := h', padH := p' } := by
+  unfold decode8; rw [hfp]
+
+theorem decode1_fixPad (r : Bool) (c : Call) (h' : Nat) (p' : Int) (hfp : fixPad c.height c.padH = fixPad h' p') :
+    decode1 r c = decode1 r { c with height := h', padH := p' } := by
+  unfold decode1; rw [hfp]
+
+theorem decode4_fixPad (r : Bool) (c : Call) (h' : Nat) (p' : Int) (hfp : fixPad c.height c.padH = fixPad h' p') :
+    decode4 r c = decode4 r { c with height := h', padH := p' } := by
+  unfold decode4; rw [hfp]
+
+theorem decode16_fixPad (r : Bool) (c : Call) (h' : Nat) (p' : Int) (hfp : fixPad c.height c.padH = fixPad h' p') :
+    decode16 r c = decode16 r { c with height := h', padH := p' } := by
+  unfold decode16; rw [hfp]
+
+theorem decode24_fixPad (r : Bool) (c : Call) (h' : Nat) (p' : Int) (hfp : fixPad c.height c.padH = fixPad h' p') :
+    decode24 r c = decode24 r { c with height := h', padH := p' } := by
+  unfold decode24; rw [hfp]
+
+theorem decodeClass_fixPad (cls : String) (r : Bool) (c : Call) (h' : Nat) (p' : Int) (hfp : fixPad c.height c.padH = fixPad h' p') :
+    decodeClass cls r c = decodeClass cls r { c with height := h', padH := p' } := by
+  unfold decodeClass
+  split
+  · exact decode1_fixPad r c h' p' hfp
+  split
+  · exact decode4_fixPad r c h' p' hfp
+  split
+  · exact decode8_fixPad r c h' p' hfp
+  split
+  · exact decode16_fixPad r c h' p' hfp
+  split
+  · exact decode24_fixPad r c h' p' hfp
+  · rfl
+
+/-- `bitd2bmp` too: two requests that differ only in (height, top offset) and have the same `fixPad` decode alike -/
+theorem bitd2bmp_fixPad (c : Call) (h' : Nat) (p' : Int) (hfp : fixPad c.height c.padH = fixPad h' p') :
+    bitd2bmp c = bitd2bmp { c with height := h', padH := p' } := by
+  unfold bitd2bmp decodeStep
+  cases hl : lookupN c.depth Gen.BitdTables.decoders with
+  | none => rfl
+  | some cls =>
+    have := decodeClass_fixPad cls true { c with palette := paletteName c } h' p' hfp
+    simp only
+    have e : paletteName { c with height := h', padH := p' } = paletteName c := rfl
+    rw [e]
+    exact congrArg (fun f => (f (DecState.init c.depth)).2) this
+
+theorem fixPad_neg (H k : Nat) (hk : k ≤ H) : fixPad (H - k) (-(k : Int)) = fixPad H 0 := by
+  unfold fixPad
+  by_cases h0 : k = 0
+  · subst h0; simp
+  · have : -(k : Int) < 0 := by omega
+    simp only [this, if_true, Int.lt_irrefl, if_false, Int.toNat_zero]
+    congr 1
+    omega
+
+end Drx.Bitd
